@@ -170,6 +170,14 @@ package ociserver
 //@   private rreq, req
 //@   requires wfHTTP(resp, req) && ocirequest.validRequest(rreq) && rreq.Kind == ocirequest.ReqManifestPut
 //@   ensures[status] result == nil ==> status() == 201
+// (C03: the backend is handed what the request carries, as it is: the parsed
+// repository and tag, the whole body, and the Content-Type header verbatim -
+// not a normalised or parameter-stripped form of it; only an absent header
+// reads as application/octet-stream)
+//@   ensures[pushes-what-the-request-carries] result == nil ==> ncallsOf("PushManifest") == 1 &&
+//@     calls[lastOf("PushManifest")].arg.1 == rreq.Repo && calls[lastOf("PushManifest")].arg.2 == rreq.Tag &&
+//@     string(calls[lastOf("PushManifest")].arg.3) == old(unread(req.Body)) &&
+//@     calls[lastOf("PushManifest")].arg.4 == (old(hdr(req.Header, "Content-Type")) == "" ? "application/octet-stream" : old(hdr(req.Header, "Content-Type")))
 
 //@ func (*registry).handleTagsList
 //@   private rreq, req
